@@ -4,6 +4,7 @@ import json, os, subprocess, sys, tempfile
 import xml.etree.ElementTree as ET
 out = tempfile.mktemp(suffix=".xml", dir="/dev/shm")
 env = dict(os.environ); env.pop("COOLER_VERIF", None)
+env["TMPDIR"] = tempfile.mkdtemp(prefix="baseline-", dir="/dev/shm")
 args = sys.argv[1:]
 p = subprocess.run(["/venv/bin/python", "-m", "pytest", "-ra", "-q", "-p", "no:cacheprovider", "--timeout=900",
                     "--continue-on-collection-errors", f"--junitxml={out}", "-n", "8"] + args if False else
@@ -20,6 +21,7 @@ for tc in ET.parse(out).getroot().iter("testcase"):
     elif tc.find("skipped") is None:
         failed.add(name)
 os.remove(out)
+import shutil; shutil.rmtree(env["TMPDIR"], ignore_errors=True)
 missing = sorted(set(base["stable_pass"]) - passed) if not args else sorted(failed)
 print(f"passed={len(passed)} failed={len(failed)} baseline={len(base['stable_pass'])} missing_from_baseline={len(missing)}")
 for m in missing:
